@@ -1,5 +1,10 @@
 mod storage;
 
+#[cfg(aquatic_verif)]
+pub mod verif_storage {
+    pub use super::storage::*;
+}
+
 use std::cell::RefCell;
 use std::rc::Rc;
 use std::time::Duration;
